@@ -180,6 +180,10 @@ def judge(prop, rep, binary, scripts, work, replay, acc):
             key = "diverge:closed-file-rewritten-on-disk"
             summary = ("documentSymbol of a file that is not open, after it was rewritten on disk and the server was told "
                        "(workspace/didChangeWatchedFiles), differs from the answer of a server given that text in a didOpen")
+        elif "answer-differs" in why and ev.get("kind") == "dependentDiagnostics":
+            key = "diverge:diagnostics-of-an-open-document-after-another-file-changed"
+            summary = ("pulled diagnostics (asked with previousResultId, `unchanged` read as the previous report) of an open document "
+                       "that calls a function of another file, after that file was rewritten on disk, differ from a server given both texts afresh")
         elif "answer-differs" in why:
             key = f"diverge:{b['class']}"
             summary = (f"{b['kind']} answer of the server fed didOpen + {sum(1 for e in runs[ri][: b['pos']] if e['a'] == 'Change')} "
